@@ -120,6 +120,8 @@ func GoType(t *TD) reflect.Type {
 			return reflect.TypeOf(uint(0))
 		}
 		return uintTypes[t.W]
+	case "marked":
+		return reflect.TypeOf(Marked(0))
 	case "f32":
 		return reflect.TypeOf(float32(0))
 	case "f64":
